@@ -11,6 +11,11 @@ import glob, os, re
 # harness uses it to stop one pick exactly there (operation `pickhold`) and let it continue later
 HOOK_RE = re.compile(r"(func \(gb \*gcpBalancer\) newSubConn\(\) \{\n[ \t]*)(gb\.mu\.Lock\(\))")
 
+# second schedule hook: in front of the `gb.mu.Lock()` that opens bindSubConn / bindSubConnRef (the BIND completion
+# has evaluated its arguments by then): operation `doneswap` stops a completing BIND call there while a refresh
+# swaps the channel's connection
+BIND_HOOK_RE = re.compile(r"(func \(gb \*gcpBalancer\) bindSubConn(?:Ref)?\([^)]*\) \{\n[ \t]*)(gb\.mu\.Lock\(\))")
+
 OTHER_CLOCK = re.compile(r"\btime\.(Since|Until)\(")
 
 class RewriteError(Exception):
@@ -19,10 +24,11 @@ class RewriteError(Exception):
 def rewrite_sources(kind, pkgdir, work):
     out = {}
     hooked = False
+    bind_hooked = False
     if kind == "nohook":
         # real clock, no schedule hook (race-detector stress): only tell the harness so
         gen = os.path.join(work, "zz_verif_hookgen_test.go")
-        open(gen, "w").write("//go:build verif\n\npackage grpcgcp\n\nconst verifHookInstalled = false\n")
+        open(gen, "w").write("//go:build verif\n\npackage grpcgcp\n\nconst verifHookInstalled = false\nconst verifBindHookInstalled = false\n")
         return {os.path.join(pkgdir, "zz_verif_hookgen_test.go"): gen}
     if kind != "vclock":
         raise RewriteError("unknown rewrite " + kind)
@@ -41,6 +47,8 @@ def rewrite_sources(kind, pkgdir, work):
         if os.path.basename(path) == "gcp_balancer.go":
             new, n = HOOK_RE.subn(r"\1verifHookNewSubConn(); \2", new, count=1)
             hooked = hooked or n == 1
+            new, n2 = BIND_HOOK_RE.subn(r"\1verifHookBind(); \2", new)
+            bind_hooked = bind_hooked or n2 >= 1
         if new == src:
             continue
         dst = os.path.join(work, "rw_" + os.path.basename(path))
@@ -48,6 +56,6 @@ def rewrite_sources(kind, pkgdir, work):
         out[path] = dst
     # tell the harness whether the hook could be placed (a refactored newSubConn: no `pickhold` operations)
     gen = os.path.join(work, "zz_verif_hookgen_test.go")
-    open(gen, "w").write("//go:build verif\n\npackage grpcgcp\n\nconst verifHookInstalled = %s\n" % ("true" if hooked else "false"))
+    open(gen, "w").write("//go:build verif\n\npackage grpcgcp\n\nconst verifHookInstalled = %s\nconst verifBindHookInstalled = %s\n" % ("true" if hooked else "false", "true" if bind_hooked else "false"))
     out[os.path.join(pkgdir, "zz_verif_hookgen_test.go")] = gen
     return out
